@@ -98,7 +98,35 @@ class Session:
                                          argv=self.sim.argv), ev=self.ev)
 
 
+# payload regions around the training sequence, per burst type (TS 45.002 5.2)
+REGIONS = dict(nb=[(0, 61), (87, 148)], sb=[(0, 42), (106, 148)], ab=[(0, 8), (49, 148)])
+
+
+def structured(rng, kind, bits):
+    """The same burst with its payload regions (everything but the training sequence) filled with
+    degenerate content - all zeros, all ones, alternating - in some or all regions: the training
+    sequence that is present does not change, so neither may the TSC reported for it."""
+    b = bytearray(bits)
+    for (lo, hi) in REGIONS[kind]:
+        fill = rng.choice(["keep", "zeros", "zeros", "ones", "alt"])
+        for i in range(lo, hi):
+            if fill == "zeros":
+                b[i] = 0
+            elif fill == "ones":
+                b[i] = 1
+            elif fill == "alt":
+                b[i] = i & 1
+    return bytes(b)
+
+
 def burst_bits(rng, gen, kind=None):
+    kind, bits = _burst_bits(rng, gen, kind)
+    if kind in REGIONS and rng.random() < 0.3:
+        bits = structured(rng, kind, bits)
+    return kind, bits
+
+
+def _burst_bits(rng, gen, kind=None):
     import gsm_shared
     kind = kind or rng.choice(["nb", "nb", "nb", "sb", "ab", "fb", "db", "rand", "edge", "rand"])
     if kind == "nb":
